@@ -143,11 +143,19 @@ def identity(a: Val, b: Val):
 def contains(heapops, heap, container: Val, item: Val):
     t = container.t
     if isinstance(t, TDict):
+        if not isinstance(item.t, type(t.k)) and isinstance(item.t, TRef):
+            from . import decl as _decl
+
+            for dd in _decl.mro_decls(item.t.cls):
+                if dd.mapping_delegate:
+                    item = heapops.dict_as_map(heap, heapops.read_field(heap, item, dd.mapping_delegate))
         return heapops.dict_has(heap, container, item)
     if isinstance(t, TSet):
         return z3.Select(heapops.set_arr(heap, container), item.v)
     if isinstance(t, TMap):
-        return z3.Select(container.v[0], item.v)
+        from .core import key_term
+
+        return z3.Select(container.v[0], key_term(item))
     if isinstance(t, TSetV):
         return z3.Select(container.v, item.v)
     if isinstance(t, TList):
@@ -179,13 +187,13 @@ def truth(heapops, heap, v: Val):
     if isinstance(t, TOpt):
         return z3.And(z3.Not(v.v[0]), truth(heapops, heap, v.v[1]))
     if isinstance(t, TDict):
-        return heapops.dict_dom(heap, v) != z3.K(t.k.sort(), z3.BoolVal(False))
+        return heapops.dict_dom(heap, v) != z3.K(t.ksort(), z3.BoolVal(False))
     if isinstance(t, TSet):
         return heapops.set_arr(heap, v) != z3.K(t.e.sort(), z3.BoolVal(False))
     if isinstance(t, TSetV):
         return v.v != z3.K(t.e.sort(), z3.BoolVal(False))
     if isinstance(t, TMap):
-        return v.v[0] != z3.K(t.k.sort(), z3.BoolVal(False))
+        return v.v[0] != z3.K(t.ksort(), z3.BoolVal(False))
     if isinstance(t, TList):
         return z3.Length(heapops.list_seq(heap, v)) > 0
     if isinstance(t, TSeq):
@@ -215,11 +223,11 @@ def truth(heapops, heap, v: Val):
 def length(heapops, heap, v: Val) -> Val:
     t = v.t
     if isinstance(t, TDict):
-        USED.add(("card", str(t.k.sort())))
-        return Val(INT, heapops.card_fn(t.k.sort())(heapops.dict_dom(heap, v)))
+        USED.add(("card", str(t.ksort())))
+        return Val(INT, heapops.card_fn(t.ksort())(heapops.dict_dom(heap, v)))
     if isinstance(t, TMap):
-        USED.add(("card", str(t.k.sort())))
-        return Val(INT, heapops.card_fn(t.k.sort())(v.v[0]))
+        USED.add(("card", str(t.ksort())))
+        return Val(INT, heapops.card_fn(t.ksort())(v.v[0]))
     if isinstance(t, TSet):
         USED.add(("card", str(t.e.sort())))
         return Val(INT, heapops.card_fn(t.e.sort())(heapops.set_arr(heap, v)))
